@@ -189,8 +189,8 @@ impl SessionConfig {
             max_gas_per_tx: block_gas_limit.min(*vcommon::pick(rng, &[900_000u64, 2_000_000])),
             block_size_limit: *vcommon::pick(rng, &[5_000u64, 9_000, 20_000]),
             tx_max_size: *vcommon::pick(rng, &[2_600u64, 4_000]),
-            max_inputs: *vcommon::pick(rng, &[6u16, 10]),
-            max_outputs: *vcommon::pick(rng, &[6u16, 10]),
+            max_inputs: *vcommon::pick(rng, &[8u16, 12]),
+            max_outputs: *vcommon::pick(rng, &[8u16, 12]),
             gas_price_factor: *vcommon::pick(rng, &[1u64, 1, 92]),
             gas_per_byte: *vcommon::pick(rng, &[4u64, 63]),
             genesis_da_height: rng.gen_range(0..4),
